@@ -30,6 +30,11 @@ SHAPES = {
     "tr-multi_a": ("tr({3},multi_a(2,{0},{1},{2}))", False, True, 2),
     "tr-sortedmulti_a": ("tr({3},sortedmulti_a(2,{0},{1}))", False, True, 2),
     "tr-mini": ("tr({3},and_v(v:pk({0}),older(10)))", False, True, 1),
+    # one key named in several leaves: every leaf commits to its own tapleaf hash, so the key signs each leaf separately;
+    # key {3} signs nothing, which decides the leaf that can be spent
+    "tr-shared-key-second-leaf": ("tr({3},{{multi_a(2,{0},{3}),pk({0})}})", False, True, 1),
+    "tr-shared-key-first-leaf": ("tr({3},{{pk({0}),multi_a(2,{0},{3})}})", False, True, 1),
+    "tr-shared-key-three-leaves": ("tr({3},{{multi_a(2,{1},{3}),{{multi_a(2,{1},{2}),pk({1})}}}})", False, True, 2),
     "wsh-mini-older": ("wsh(and_v(v:pk({0}),older(10)))", False, False, 1),
     "wsh-mini-or": ("wsh(or_d(pk({0}),and_v(v:pk({1}),after(100))))", False, False, 1),
     "wsh-mini-thresh": ("wsh(thresh(2,pk({0}),s:pk({1}),s:pk({2})))", False, False, 2),
@@ -214,10 +219,29 @@ class FlowGen:
             pin = psbt.inputs[vin_i]
             if not pin.taproot_script_spend_signatures or pin.taproot_key_spend_signature:
                 return None
-            sigs = {key[:32]: sig for key, sig in pin.taproot_script_spend_signatures.items()}
+            # Descriptor.satisfy takes one signature per key, and a key named in several leaves signed each leaf separately
+            # (the message commits to the tapleaf hash): offer one leaf's signatures at a time and keep the answer that
+            # spends that very leaf
+            from btclib.script.taproot import leaf_hash as tapleaf_hash
+
             tx = psbt.tx
             spend = SpendContext(locktime=tx.lock_time, sequence=tx.vin[vin_i].sequence, version=tx.version)
-            return fl.descs[vin_i].satisfy(sigs, fl.index[vin_i], None, spend)
+            by_leaf: dict = {}
+            for key, sig in pin.taproot_script_spend_signatures.items():
+                by_leaf.setdefault(key[32:], {})[key[:32]] = sig
+            last = None
+            for lh, sigs in by_leaf.items():
+                try:
+                    script_sig, witness = fl.descs[vin_i].satisfy(sigs, fl.index[vin_i], None, spend)
+                except Exception as e:  # noqa: BLE001 - this leaf is not satisfied by its own signatures: try the next
+                    last = e
+                    continue
+                control = witness.stack[-1]
+                if tapleaf_hash(control[0] & 0xFE, witness.stack[-2]) == lh:
+                    return script_sig, witness
+            if last is not None:
+                raise last
+            return None
         return solve
 
     def sizer(self, fl: Flow):
@@ -247,7 +271,11 @@ class FlowGen:
             sig_len = 64 if fl.sighash[k] in (None, 0) else 65
             if fl.shapes[k] == "tr-keypath-with-tree":
                 return [sig_len]
-            sigs = {key: bytes(sig_len) for key, (leaves, _origin) in psbt_in.taproot_hd_key_paths.items() if leaves}
+            signers = set()
+            for root in fl.roots[:3]:
+                signers.add(bytes(self._fp(root)))
+            sigs = {key: bytes(sig_len) for key, (leaves, origin) in psbt_in.taproot_hd_key_paths.items()
+                    if leaves and bytes(origin.master_fingerprint) in signers}
             spend = SpendContext(locktime=fl.created.tx.lock_time, sequence=tx_in.sequence, version=fl.created.tx.version)
             _ss, witness = fl.descs[k].satisfy(sigs, fl.index[k], None, spend)
             return [len(e) for e in witness.stack]
